@@ -35,6 +35,20 @@ def strategy(tier):
     return gens.with_pre(_spec(tier))
 
 
+def pinned():
+    """Grow-after-elaboration histories whose grown layout keeps three registers on one shadow chunk at
+    every shadow size (unaligned multi-word registers): a multiplexer elaborated over its first
+    register(s), then extended, then simulated - with unlimited sharing nothing may be refused."""
+    out = []
+    txns = [{"reg": k % 3, "mode": m, "len": "full", "k": 0, "gap": 1, "inner_gap": 0, "unmapped": "", "pat": "ones"}
+            for k, m in enumerate(["r", "w", "r", "rw", "r", "r"])]
+    for name, words, late in (("1-2-4", (1, 2, 4), 2), ("1-2-4-late1", (1, 2, 4), 1), ("2-3-6", (2, 3, 6), 2), ("1-3-5", (1, 3, 5), 2)):
+        lay = {"dw": 8, "al": 0, "extra_aw": 0, "late": late, "mid_elab": True, "ov": None,
+               "regs": [{"w": 8 * n_, "acc": "rw", "mode": "gap", "gap": 0, "pad": 0} for n_ in words]}
+        out.append((f"grow-after-elaboration-{name}", {"lay": lay, "stim": {"kind": "conf", "dseed": 5, "txns": txns}, "pre": 0}))
+    return out
+
+
 def stim_labels(stim, facts, lay, stats):
     stats.label("stim:" + stim["kind"])
     for f in facts:
